@@ -20,6 +20,7 @@ ASSUMPTIONS = ['residue alphabet {A,K} forces overlapping occurrences; tags are 
                'for the first / last residue, the N- / C-terminal modifications']
 
 ALPHA = 'AK'
+TWO_TAG_N = {'quick': 2, 'thorough': 3}   # target lengths whose sites may carry two tags (written in either order)
 GLOBALS = ['', '/2', '/2[+2Na+]', '/3', '/2[+Na+,+H+]', '<13C>', '<[1]@K>', '{Glycan:Hex}', '[Phospho]?']
 
 
@@ -46,7 +47,7 @@ def shards(tier):
             out += [{'kind': 'iv', 'n': n, 'pre': ''.join(t)} for t in itertools.product(ALPHA, repeat=n)]
         out += [{'kind': 'glob', 'n': n, 'pre': a} for a in ALPHA]
         out += [{'kind': 'unordered', 'n': n, 'pre': ''.join(t), 'tm0': m0}
-                for t in itertools.product(ALPHA, repeat=n) for m0 in (0, 1, 2)]
+                for t in itertools.product(ALPHA, repeat=n) for m0 in ((0, 1, 2, 12, 21) if n <= TWO_TAG_N[tier] else (0, 1, 2))]
     return out
 
 
@@ -85,7 +86,8 @@ def gen(shard, tier):
         for t in _strings(n, n):
             if not t.startswith(pre):
                 continue
-            for tmods in itertools.product((0, 1, 2), repeat=n):  # 0 none, 1 tag [1], 2 tag [2]
+            # 0 none, 1 tag [1], 2 tag [2], 12 tags [1][2], 21 tags [2][1] (the same modified residue written two ways)
+            for tmods in itertools.product((0, 1, 2, 12, 21) if n <= TWO_TAG_N[tier] else (0, 1, 2), repeat=n):
                 if tmods[0] != shard['tm0']:
                     continue
                 yield {'kind': 'unordered', 't': t, 'tm': list(tmods)}, n, True
@@ -319,12 +321,14 @@ def check(case, ctx):
     else:
         t, tm = case['t'], case['tm']
         n = len(t)
-        tres = {i: [m] for i, m in enumerate(tm) if m}
+        TAGS = {0: [], 1: [1], 2: [2], 12: [1, 2], 21: [2, 1]}
+        tres = {i: TAGS[m] for i, m in enumerate(tm) if m}
         ntrue = 0
 
         def units(seq, mods, nt, ct, lab):
             # a peptide as a multiset of (residue, own tag, N-terminal tag / labile tag if first, C-terminal tag if last)
-            return sorted((seq[i], mods[i], nt if i == 0 else 0, ct if i == len(seq) - 1 else 0, lab if i == 0 else 0)
+            return sorted((seq[i], tuple(sorted(TAGS[mods[i]])), nt if i == 0 else 0, ct if i == len(seq) - 1 else 0,
+                           lab if i == 0 else 0)
                           for i in range(len(seq)))
         tvars = ((0, 0, 0), (3, 4, 0), (3, 0, 0), (0, 4, 0), (0, 0, 5), (3, 0, 5)) if n <= 3 else ((0, 0, 0),)
         for tnt, tct, tlab in tvars:
@@ -332,7 +336,7 @@ def check(case, ctx):
             tbag = units(t, tm, tnt, tct, tlab)
             for m in range(1, min(3, n + 1) + 1):
                 for q in _strings(m, m):
-                    for qm in itertools.product((0, 1, 2), repeat=m):
+                    for qm in itertools.product((0, 1, 2, 12, 21) if m <= 2 and any(x > 2 for x in tm) else (0, 1, 2), repeat=m):
                         if m == 1:
                             qvars = ((0, 0, 0), (3, 0, 0), (0, 4, 0), (3, 4, 0), (0, 0, 5), (3, 0, 5))
                         elif m == 2 and (tnt or tct or tlab):
@@ -340,7 +344,7 @@ def check(case, ctx):
                         else:
                             qvars = ((0, 0, 0),)
                         for qnt, qct, qlab in qvars:
-                            qs = render(q, {i: [x] for i, x in enumerate(qm) if x}, [qnt] if qnt else None,
+                            qs = render(q, {i: TAGS[x] for i, x in enumerate(qm) if x}, [qnt] if qnt else None,
                                         [qct] if qct else None, labile=[qlab] if qlab else None)
                             qbag = units(q, qm, qnt, qct, qlab)
                             rest = list(tbag)
